@@ -177,11 +177,17 @@ class VCSAPI:
             for filepath in filepaths.split(" -> "):
                 status_items.append((status, _unquote_path(filepath)))
 
-        return [
-            filepath.strip()
-            for status, filepath in status_items
-            if filepath.strip() in required_files or status not in ("??", "?")
-        ]
+        dirty_files: typ.List[str] = []
+        for status, filepath in status_items:
+            filepath     = filepath.strip()
+            is_untracked = status in ("??", "?")
+            if is_untracked and filepath.endswith("/"):
+                # NOTE: git reports a directory with only untracked files as one entry
+                dirty_files.extend(req for req in sorted(required_files) if req.startswith(filepath))
+            elif filepath in required_files or not is_untracked:
+                dirty_files.append(filepath)
+
+        return dirty_files
 
     def ls_tags(self) -> typ.List[str]:
         """List vcs tags on all branches."""
